@@ -238,7 +238,8 @@ func runBoth(ctx *vrun.Ctx, mining bool) error {
 		totalEdges += edges
 		drift += r.w.Drift
 		drifts = append(drifts, r.w.drifts...)
-		ctx.Sample(map[string]any{"universe": r.m.U.Name, "transactions": len(r.m.U.Txs), "states": r.m.Distinct, "edges": edges, "edges_replayed": cov, "paths": r.w.Paths})
+		ctx.Sample(map[string]any{"universe": r.m.U.Name, "transactions": r.m.U.Txs, "policy": map[string]any{"MaxOrphanTxs": r.m.U.MaxOrphans, "RejectReplacement": r.m.U.RejectRepl, "CoinbaseMaturity": r.m.U.Maturity},
+			"block_slots_parent": r.m.U.SlotParent, "spec_states": r.m.Distinct, "spec_edges": edges, "edges_replayed": cov, "paths_replayed": r.w.Paths, "one_replayed_path": r.w.SamplePath})
 	}
 	var missing []string
 	for _, a := range allActions {
@@ -269,9 +270,9 @@ func runBoth(ctx *vrun.Ctx, mining bool) error {
 	ctx.Ev.Coverage.Exhaustive = false
 	ctx.Ev.Coverage.Explanation = fmt.Sprintf("each universe (4-5 abstract transactions, 1-3 block slots, one policy configuration) is explored exhaustively by TLC and %d of its %d transitions were replayed into real nodes (transitions that depend on Go map iteration order are taken when the real node happens to choose them); the universes themselves are a sample of the transaction graphs and configurations the property quantifies over", totalCov, totalEdges)
 	if mining {
-		ctx.Ev.Coverage.Rule = "at every reachable state of every explored universe NewBlockTemplate runs on the real pool/chain under three mining policies; each template record is judged by Mining.tla (TemplateFailures) against the pool state of the specification"
+		ctx.Ev.Coverage.Rule = "at every reachable state of every explored universe NewBlockTemplate runs on the real pool/chain under three mining policies; each template record is judged by Mining.tla (TemplateFailures) against the pool state of the specification; distinct_nontrivial counts distinct (universe, call with arguments, result code) triples replayed plus distinct (universe, policy, selected transaction list) templates"
 	} else {
-		ctx.Ev.Coverage.Rule = "every transition of the exhaustive TLC state graph of every universe is replayed into a real TxPool+BlockChain+SyncManager and the observable projection compared with the specification after each step"
+		ctx.Ev.Coverage.Rule = "every transition of the exhaustive TLC state graph of every universe is replayed into a real TxPool+BlockChain+SyncManager and the observable projection compared with the specification after each step; distinct_nontrivial counts distinct (universe, call with arguments, result code of the specification) triples that were executed on the real node"
 	}
 	ctx.Assume("block timestamps and the adjusted time come from the wall clock within a two hour window; orphan expiry (15 min) and rate-limiter decay (10 min window) do not fire during a replay")
 	ctx.Assume("transactions are anyone-can-spend scripts; signature checking itself is covered by C06/C07")
